@@ -389,6 +389,9 @@ def call_method(I, recv, name, args, kwargs, fr):
             return VSeq(r.t, recv.kind)
         if name == 'decode':
             enc = args[0] if args else VStr('utf-8')
+            ok = I.call_spec('decodable', VSeq(recv.t, 'list'), enc)
+            if not fr.spec and not p.branch(ok.t, 'decode'):
+                raise PyRaise(I.builtin_exc('UnicodeDecodeError', VStr('invalid bytes for the codec')))
             return I.call_spec('text_decode', VSeq(recv.t, 'list'), enc)
         if name == 'hex':
             return VStr(p.fresh_str('hex'))
